@@ -797,6 +797,12 @@ pub fn cmd_check(a: &[String]) -> i32 {
         new_violations,
         printed_known.len()
     );
+    if agg.real_pool_entries > 0 {
+        println!(
+            "note: the library entered the REAL rayon pool {} times (rayon::scope / spawn / an own thread pool): that work ran on real threads outside the simulated schedule; verdicts of comparisons stay valid, replay of a schedule-dependent failure found there is not guaranteed",
+            agg.real_pool_entries
+        );
+    }
     if agg.reports != runs {
         // runs lost to a hang/crash are accounted for by their violation (or by the
         // unconfirmed_* probe); anything else is a harness error
